@@ -365,6 +365,15 @@ func (e *Exec) fUnX(name string, a Float) Float {
 	if e.opaque {
 		return e.opaqueOp(name, a.Sym)
 	}
+	if name != "abs" {
+		if e.roundMemo == nil {
+			e.roundMemo = map[string]Float{}
+		}
+		key := name + "|" + a.Sym
+		if r, ok := e.roundMemo[key]; ok {
+			return r
+		}
+	}
 	switch name {
 	case "abs":
 		r := e.nmR(Float{Sym: "(ite (>= " + a.Sym + " 0.0) " + a.Sym + " (- " + a.Sym + "))"})
@@ -376,10 +385,18 @@ func (e *Exec) fUnX(name string, a Float) Float {
 		if a.IntR != "" && a.Scale >= 0 {
 			return a
 		}
+		if a.IntR != "" && a.Scale < 0 && a.Scale >= -200 {
+			// floor of an exact dyadic k*2^-s is the Euclidean quotient (SMT-LIB div rounds toward -infinity for a positive divisor)
+			r := dyFloat("(div "+a.IntR+" "+new(big.Int).Lsh(big.NewInt(1), uint(-a.Scale)).String()+")", 0)
+			e.roundMemo[name+"|"+a.Sym] = r
+			return r
+		}
 		k := e.fresh("rk")
 		e.declare(k, "Int")
 		e.sol.Send(fmt.Sprintf("(assert (and (<= (to_real %s) %s) (< %s (+ (to_real %s) 1.0))))", k, a.Sym, a.Sym, k))
-		return Float{Sym: "(to_real " + k + ")", IntR: k}
+		r := Float{Sym: "(to_real " + k + ")", IntR: k}
+		e.roundMemo[name+"|"+a.Sym] = r
+		return r
 	case "ceil":
 		if a.IntR != "" && a.Scale >= 0 {
 			return a
@@ -387,7 +404,9 @@ func (e *Exec) fUnX(name string, a Float) Float {
 		k := e.fresh("rk")
 		e.declare(k, "Int")
 		e.sol.Send(fmt.Sprintf("(assert (and (< (- (to_real %s) 1.0) %s) (<= %s (to_real %s))))", k, a.Sym, a.Sym, k))
-		return Float{Sym: "(to_real " + k + ")", IntR: k}
+		r := Float{Sym: "(to_real " + k + ")", IntR: k}
+		e.roundMemo[name+"|"+a.Sym] = r
+		return r
 	case "trunc", "round":
 		if a.IntR != "" && a.Scale >= 0 {
 			return a
@@ -475,7 +494,7 @@ func (e *Exec) iToFX(a Int) Float {
 		return Float{Sym: "(op_i2f " + iConv(a, 64, a.Signed).T() + ")"}
 	}
 	var r string
-	if a.RI != "" {
+	if a.RI != "" && a.Off == 0 {
 		r = "(to_real " + a.RI + ")"
 	} else if a.Signed {
 		t := a.T()
@@ -492,6 +511,9 @@ func (e *Exec) iToFX(a Int) Float {
 	}
 	if e.provable(small) {
 		ri := a.RI
+		if a.Off != 0 {
+			ri = ""
+		}
 		if ri == "" {
 			n := e.fresh("rk")
 			e.declare(n, "Int")
@@ -578,7 +600,7 @@ func (e *Exec) realPrim(name string, args []Value) (Value, bool) {
 		if i.IsC {
 			return RealV{IsC: true, C: new(big.Rat).SetInt64(i.sval())}, true
 		}
-		if i.RI != "" {
+		if i.RI != "" && i.Off == 0 {
 			return RealV{Sym: "(to_real " + i.RI + ")"}, true
 		}
 		t := i.T()
@@ -721,7 +743,14 @@ func (e *Exec) dyExact(op string, a, b Float) (Float, bool) {
 		if !a.IsC && !b.IsC {
 			return Float{}, false
 		}
-		k, s = "(* "+ka+" "+kb+")", sa+sb
+		switch {
+		case kb == "1":
+			k, s = ka, sa+sb
+		case ka == "1":
+			k, s = kb, sa+sb
+		default:
+			k, s = "(* "+ka+" "+kb+")", sa+sb
+		}
 	case "/":
 		if !b.IsC || !isPow2(math.Abs(b.C)) {
 			return Float{}, false
